@@ -9,7 +9,7 @@ import pyBigWig
 import torch
 from hypothesis import strategies as st
 
-from pbt.harness import Sub, Violation, Rejected, SutRaised, require, sut
+from pbt.harness import Sub, Violation, Rejected, SutRaised, require, sut, deep_snapshot, deep_equal
 from pbt import gen
 
 from tangermeme.io import extract_loci, read_meme
@@ -140,6 +140,8 @@ def loci_case(case, ctx):
             i_arg = None if n_in == 0 else ([bws[n_sig + k] for k in range(n_in)] if files else [sig[n_sig + k] for k in range(n_in)])
             return extract_loci(loci_args, seqs, signals=s_arg, in_signals=i_arg, **kw)
 
+        keep_args = deep_snapshot({"loci": [a for a in (loci_args if isinstance(loci_args, list) else [loci_args]) if not isinstance(a, str)],
+                                   "seq": mem_seq, "sig": sig})
         results = {}
         for files in (True, False):
             try:
@@ -256,6 +258,9 @@ def loci_case(case, ctx):
                     require(torch.equal(outs2[1][k2].to(torch.float64), ws.to(torch.float64)), "stale-signal-after-file-rewrite",
                             lambda: "row %d: got %s want %s" % (k2, outs2[1][k2].flatten().tolist()[:6], ws.flatten().tolist()[:6]))
             ctx.label("bigwig_rewritten_between_calls")
+        now_args = {"loci": [a for a in (loci_args if isinstance(loci_args, list) else [loci_args]) if not isinstance(a, str)], "seq": mem_seq, "sig": sig}
+        if not case.get("rewrite_signals"):
+            require(deep_equal(now_args, keep_args), "extract-inputs-modified", "the caller's locus tables / in-memory sequences / signals were changed")
         a, b = results[True], results[False]
         if not isinstance(a, Exception) and not isinstance(b, Exception):
             require(len(a[0]) == len(b[0]) and all(x.shape == y.shape and torch.equal(x.to(torch.float64), y.to(torch.float64)) for x, y in zip(a[0], b[0])),
